@@ -71,6 +71,10 @@ impl Connector for LoadBalanceConnector {
         self.name.as_str()
     }
 
+    fn members(&self) -> &[String] {
+        &self.connectors
+    }
+
     async fn init(&mut self) -> Result<(), Error> {
         if let Algorithm::HashBy(str) = &self.algorithm {
             let value = parse(str).context("unable to compile hash script")?;
@@ -96,7 +100,22 @@ impl Connector for LoadBalanceConnector {
                 n
             );
         }
-        Ok(())
+        // a request must leave the load balancers after finitely many hand-overs: following members from here
+        // never takes more steps than there are connectors, unless the members form a cycle
+        fn check_depth(state: &GlobalState, name: &str, depth: usize) -> Result<(), Error> {
+            ensure!(
+                depth > 0,
+                "load balancer members form a cycle through: {}",
+                name
+            );
+            if let Some(c) = state.connectors.get(name) {
+                for m in c.members() {
+                    check_depth(state, m, depth - 1)?;
+                }
+            }
+            Ok(())
+        }
+        check_depth(&state, &self.name, state.connectors.len() + 1)
     }
 
     async fn connect(
